@@ -1,6 +1,6 @@
 #!/bin/bash
 # tools/try_refactor.sh <abs diff>...: applies a behaviour-preserving patch, runs ALL checks, prints every check that is not silent (exit != 0)
-trap 'git -C /repo reset -q; git -C /repo checkout -- . 2>/dev/null' EXIT INT TERM
+trap 'git -C /repo reset -q; git -C /repo checkout -- . 2>/dev/null; git -C /repo clean -fdq -- src 2>/dev/null' EXIT INT TERM
 for P in "$@"; do
   cd /repo; if ! git diff --quiet; then echo "repo dirty"; exit 2; fi
   if ! git apply "$P" 2>/dev/null; then echo "INAPPLICABLE $P"; continue; fi
@@ -10,5 +10,5 @@ for P in "$@"; do
     if [ $rc -ne 0 ]; then loud="$loud $id($rc)"; echo "$out" | grep -v "^KNOWN\|^    witness" | grep "rule\|CHECK-ERROR" | cut -c1-260 | head -4 | sed "s/^/      [$id] /"; fi
   done
   if [ -z "$loud" ]; then echo "SILENT   $P"; else echo "LOUD     $P ->$loud"; fi
-  git -C /repo reset -q; git -C /repo checkout -- .
+  git -C /repo reset -q; git -C /repo checkout -- .; git -C /repo clean -fdq -- src
 done
